@@ -121,6 +121,8 @@ class State:
         s.rangecopy = dict(getattr(self, 'rangecopy', {}))
         s.refs = dict(getattr(self, 'refs', {}))
         s.captures = dict(getattr(self, 'captures', {}))
+        s.outer_objs = getattr(self, 'outer_objs', frozenset())
+        s.obj_reads = getattr(self, 'obj_reads', frozenset())
         s.objs = list(getattr(self, 'objs', []))
         s.this_obj = list(getattr(self, 'this_obj', []))
         return s
@@ -370,6 +372,8 @@ class Evaluator:
         if not isinstance(loc, tuple):
             return loc
         loc = self.ri_norm(loc)
+        if len(loc) == 3 and loc[0] == 'fld' and loc[1] in getattr(st, 'outer_objs', ()):
+            st.obj_reads = getattr(st, 'obj_reads', frozenset()) | {loc}
         k = loc[0]
         if k in ('int', 'bool', 'enum', 'ctor', 'now', 'rng', 'pred', 'res', 'adv', 'add', 'bin', 'cmp', 'not',
                  'unk', 'global', 'cast', 'hasval', 'optval', 'float', 'str', 'pair', 'undef', 'some', 'lv', 'ld', 'ma',
@@ -445,6 +449,11 @@ class Evaluator:
 
     def write(self, st, loc, val, n, how='='):
         loc = self.ri_norm(loc)
+        if isinstance(loc, tuple) and len(loc) == 3 and loc[0] == 'fld' and loc[1] in getattr(st, 'outer_objs', ()) \
+                and loc in getattr(st, 'obj_reads', ()):
+            # a cursor / accumulator kept in a member of a helper object, read and then advanced by the loop: loop-carried state the
+            # summary of an arbitrary iteration does not havoc (a member the iteration only writes - `guard.arm(e)` - is not)
+            self.unknown(st, 'state carried across loop iterations in a member of a local helper object (%s)' % loc[2], n)
         if isinstance(loc, tuple) and len(loc) == 3 and loc[0] == 'fld' and loc[2] == 'second' and isinstance(loc[1], tuple) \
                 and loc[1][0] == 'rcslot' and loc[1][1] in st.rangecopy:
             # out[i].second = r on the pre-filled output: the answer for R[i] is delivered paired with R[i] (= out.emplace_back(R[i], r))
@@ -1044,6 +1053,16 @@ class Evaluator:
             st2.ev('delete', t, site_of(n, st2))
             yield st2, ('void',)
 
+    @staticmethod
+    def _core_declref(c):
+        """the DeclRefExpr under implicit casts / parentheses (a by-copy capture of an existing variable), else None"""
+        while isinstance(c, dict) and c.get('kind') in ('ImplicitCastExpr', 'ParenExpr'):
+            sub = [x for x in c.get('inner', []) if isinstance(x, dict) and x.get('kind')]
+            if len(sub) != 1:
+                return None
+            c = sub[0]
+        return c if isinstance(c, dict) and c.get('kind') == 'DeclRefExpr' else None
+
     def e_LambdaExpr(self, n, st):
         rec = next((c for c in n.get('inner', []) if c.get('kind') == 'CXXRecordDecl'), None)
         ops_ = [c for c in (rec or {}).get('inner', []) if c.get('kind') == 'CXXMethodDecl' and c.get('name') == 'operator()']
@@ -1065,7 +1084,7 @@ class Evaluator:
         # init-captures (`[this, victim = m_lfu_list.begin()->second]`) are evaluated where the lambda is created, not where it runs
         inits = [c for c in n.get('inner', []) if isinstance(c, dict) and c.get('kind') and c.get('kind') not in
                  ('CXXRecordDecl', 'CompoundStmt', 'CXXThisExpr', 'DeclRefExpr')
-                 and not (c.get('kind') == 'ImplicitCastExpr' and self.strip(c).get('kind') == 'DeclRefExpr')
+                 and not (c.get('kind') == 'ImplicitCastExpr' and self._core_declref(c) is not None)
                  and not (c.get('kind') == 'CXXConstructExpr' and len([x for x in c.get('inner', []) if isinstance(x, dict) and x.get('kind')]) == 1
                           and self.strip([x for x in c['inner'] if isinstance(x, dict) and x.get('kind')][0]).get('kind') == 'DeclRefExpr'
                           and (self.strip([x for x in c['inner'] if isinstance(x, dict) and x.get('kind')][0]).get('referencedDecl') or {}).get('id') in st.env)]
@@ -1610,6 +1629,8 @@ class Evaluator:
             it_st = stx.clone()
             it_st.trace = []
             self.havoc(it_st, ids, lid, 'iter')
+            it_st.outer_objs = frozenset(o[2] for o in getattr(st, 'objs', []))      # helper objects that live across the iterations
+            it_st.obj_reads = frozenset()
             it_st.ev('iter', lid, it_st.era)
             if same_range:
                 elem = ('elem', first[2], lid)
@@ -3104,6 +3125,8 @@ class Evaluator:
             it_st = st.clone()
             it_st.trace = []
             self.havoc(it_st, ids, lid, 'iter')
+            it_st.outer_objs = frozenset(o[2] for o in getattr(st, 'objs', []))      # helper objects that live across the iterations
+            it_st.obj_reads = frozenset()
             it_st.ev('iter', lid, it_st.era)
             if range_info is not None:
                 self.bind_range_var(range_info, it_st, lid)
